@@ -49,7 +49,8 @@ Inductive flex_end :=
 
 Section FlexWalk.
   Context {A : Type}.
-  Variables (l : intty) (os : N).
+  (* l = the offset type, os = OFFSET_SIZE, al = ALIGN of the FlexVec *)
+  Variables (l : intty) (os : N) (al : N).
   (* item callback: accumulator, slot position, payload address, payload bytes *)
   Variable item : A -> N -> N -> bytes -> res A.
 
@@ -69,6 +70,7 @@ Section FlexWalk.
             do m <- to_usize (int_max l);
             let last := next =? m in
             if next <? os then Err InsufficientSize (pos + os)
+            else if negb last && negb (next mod al =? 0) then Err BadAlign pos
             else if (negb last && (blen rem <? next)) || (blen rem <? os) then Err InsufficientSize pos
             else if last then
               do sp <- split_at os rem;
@@ -137,7 +139,7 @@ Fixpoint validate_u (t : ty) (a : N) (bs : bytes) {struct t} : res unit :=
   | TFlex t l =>
       let os := flex_offset_size t l in
       let data := take (floor_mul (blen bs) (align (TFlex t l))) bs in
-      do r <- flex_fold l os
+      do r <- flex_fold l os (align (TFlex t l))
                 (fun (_ : unit) pos pa payload =>
                    shift (pos + os) (do _ <- check_align_min t pa payload; validate_u t pa payload))
                 (flex_fuel data) tt a data 0;
